@@ -36,6 +36,22 @@ theorem C09_noninterference (C : Consts) (hstep : 0 < C.step) (sizes : Nat → N
   intro c hc hg
   exact ((C08.C08_refinement C hstep sizes evs hev).1 c hc hg).2.2
 
+/-- **C09 in the property's own words.** Take ANY two runs - say one with faulty clients around and one without, with
+    any interleaving, fragmentation and faults whatsoever on the other connections - that both end with an idle server.
+    A well-behaved client that sent the same calls in both (all bytes arrived) and whose reply streams were allowed to hand
+    over the same number of results has been sent **exactly the same replies** in both: what it receives is a function of
+    its own calls alone (`C08_model_satisfies_oracle`), "exactly the replies it would have received had the faulty
+    connection never existed". -/
+theorem C09_same_replies_whoever_else_is_there (C : Consts) (hstep : 0 < C.step) (sizes₁ sizes₂ : Nat → Nat)
+    (evs₁ evs₂ : List Srv.Ev)
+    (hev₁ : Srv.EvsOK C sizes₁ evs₁ init) (hacct₁ : Srv.EvsAcct evs₁) (hidle₁ : iter C sizes₁ (runEvs C sizes₁ evs₁ init) = none)
+    (hev₂ : Srv.EvsOK C sizes₂ evs₂ init) (hacct₂ : Srv.EvsAcct evs₂) (hidle₂ : iter C sizes₂ (runEvs C sizes₂ evs₂ init) = none)
+    (c₁ c₂ : Conn) (h₁ : c₁ ∈ (runEvs C sizes₁ evs₁ init).conns) (h₂ : c₂ ∈ (runEvs C sizes₂ evs₂ init).conns)
+    (g₁ : c₁.good = true) (g₂ : c₂.good = true) (f₁ : c₁.fut = []) (f₂ : c₂.fut = [])
+    (hd : c₁.descs = c₂.descs) (hg : c₁.granted = c₂.granted) : c₁.out = c₂.out := by
+  rw [(C08.C08_model_satisfies_oracle C hstep sizes₁ evs₁ hev₁ hacct₁ hidle₁).1 c₁ h₁ g₁ f₁,
+      (C08.C08_model_satisfies_oracle C hstep sizes₂ evs₂ hev₂ hacct₂ hidle₂).1 c₂ h₂ g₂ f₂, hd, hg]
+
 /-- A failed write to a client drops that connection only; in particular it can only happen to a
     connection whose transport fails (never to a well-behaved one). -/
 theorem C09_write_failure_local (c : Conn) (toks : List Tok) (h : c.wfail = none) :
@@ -57,5 +73,14 @@ def bad : Conn := { C08.Example.conn 1 [] [.echo 1 false, .echo 2 false] with go
 def evs : List Srv.Ev := [.connect bad, .connect good, .arrive 1 [5, 0, 6, 0, 7], .arrive 0 [1, 2, 0], .run 50,
   .close 1, .arrive 0 [3, 0], .run 50]
 example : (runEvs C (fun _ => 100) evs init).all.map (fun c => (c.id, c.out)) = [(0, [.R 7, .E]), (1, [])] := by decide
+/-- the same healthy client alone: both runs end idle, the hypotheses of `C09_same_replies_whoever_else_is_there` are
+    met, and the client was sent the same replies -/
+def evsAlone : List Srv.Ev := [.connect good, .arrive 0 [1, 2, 0], .run 50, .arrive 0 [3, 0], .run 50]
+example : iter C (fun _ => 100) (runEvs C (fun _ => 100) evs init) = none
+    ∧ iter C (fun _ => 100) (runEvs C (fun _ => 100) evsAlone init) = none
+    ∧ (runEvs C (fun _ => 100) evs init).conns.map (fun c => (c.id, c.out)) = [(0, [.R 7, .E])]
+    ∧ (runEvs C (fun _ => 100) evsAlone init).conns.map (fun c => (c.id, c.out)) = [(0, [.R 7, .E])] := by decide
+example : Srv.EvsAcct evs ∧ Srv.EvsAcct evsAlone := by
+  simp [Srv.EvsAcct, Srv.EvAcct, evs, evsAlone, good, bad, C08.Example.conn]
 end Example
 end C09
